@@ -671,6 +671,30 @@ def r20j(ctx):
         raise AnalysisError(f"R20j: only {n} class(es) found in toc.py")
 
 
+def r20k(ctx):
+    """An entry is written with the heading's text, blanks included.
+
+    "Each entry is the number followed by the heading's text": fill() builds the entry paragraph from `header.inner_text`.  The Paragraph
+    constructor encodes runs of blanks, tabs and line breaks (text:s, text:tab, text:line-break) so that they survive; with
+    `formatted=False` it collapses them into single blanks on purpose.  Rule: the Paragraph that fill() builds for an entry is constructed
+    with the default formatting — no `formatted=` keyword other than True.
+    """
+    repo = ctx.repo
+    ctx.rule("R20k", "TOC.fill builds each entry paragraph with the default (white-space preserving) formatting", floor=1)
+    f = repo.func("TOC.fill")
+    calls = [c for c in walk_no_nested(f.node) if isinstance(c, ast.Call) and call_name(c) == "Paragraph"]
+    if not calls:
+        raise AnalysisError("R20k: TOC.fill no longer builds a Paragraph")
+    for c in calls:
+        kw = [k for k in c.keywords if k.arg == "formatted"]
+        ok = not kw or (isinstance(kw[0].value, ast.Constant) and kw[0].value.value is True)
+        ctx.instance("R20k", f"{f.file}:{f.ident}", f"{norm(c, 40)}: default formatting", ok=ok, nontrivial=True, line=c.lineno)
+        if not ok:
+            ctx.report("R20k", f, c, norm(c, 50),
+                       f"TOC.fill builds the entry with `formatted={norm(kw[0].value, 10)}`: runs of blanks, tabs and line breaks of the heading are collapsed into single blanks, so the entry is no "
+                       f"longer the heading's text")
+
+
 def run(ctx):
     r20a(ctx)
     r20b(ctx)
@@ -682,6 +706,7 @@ def run(ctx):
     r20h(ctx)
     r20i(ctx)
     r20j(ctx)
+    r20k(ctx)
     # fill() filters by self.outline_level: that property must read this TOC's own source element, not the first one of the document (rule shared with C12)
     from ..registry import build_registry
     from .c12 import r12k
@@ -693,6 +718,8 @@ from ..selftest import Seed, unparse_seed  # noqa: E402
 _TOC = "src/odfdo/toc.py"
 _HS = "src/odfdo/scripts/headers.py"
 SEEDS = [
+    Seed("TOC.fill builds its entries unformatted", "fault", _TOC,
+         'paragraph = Paragraph(f"{number_str} {header.inner_text}")', 'paragraph = Paragraph(f"{number_str} {header.inner_text}", formatted=False)', "R20k"),
     Seed("IndexTitle gets a __str__ that returns the paragraph's own text", "fault", _TOC,
          "class IndexTitle(Element):", "class IndexTitle(Element):\n    def __str__(self) -> str:\n        paragraph = self.get_paragraph()\n        return \"\" if paragraph is None else paragraph.text\n", "R20j"),
     Seed("the XmlPart.body setter swaps the body element", "fault", "src/odfdo/xmlpart.py",
